@@ -28,7 +28,7 @@ for d in sorted(glob.glob(os.path.join(ROOT, "seeded", "C??-*")), key=lambda x: 
         if chk in seen: continue
         seen.add(chk)
         finals.append(f"{chk}: " + ("input" if rc == 1 and noinp == 0 else ("no-failing-input-found" if rc == 1 else "missed")))
-    n = int(m["id"].split("-")[1]); rnd = "7" if n >= 13 else "6" if n >= 11 else "5" if n >= 9 else "4" if n >= 7 else ("3" if n >= 5 else ("2" if n >= 3 else "1"))
+    n = int(m["id"].split("-")[1]); rnd = "8" if n >= 14 else "7" if n >= 13 else "6" if n >= 11 else "5" if n >= 9 else "4" if n >= 7 else ("3" if n >= 5 else ("2" if n >= 3 else "1"))
     rows.append(f"| {m['id']} | {rnd} | {', '.join(os.path.basename(f) for f in m['files_touched'])} | {m['title'].split('—', 1)[-1].strip()} | {m['checks_run']['first_round']} | {'; '.join(finals)} |")
 stable = "| id | round | file | change | when first run | final run |\n|---|---|---|---|---|---|\n" + "\n".join(rows)
 STATUS = {
